@@ -35,7 +35,8 @@ ASSUMPTIONS = [
     'null - DESIGN section 6): generated recursion depth stays below 60 and infinite recursion is not generated',
     'the data functions (dataFilter, dataCalculatedField, dataJoin) are not in the Lean host: programs that call back script '
     'functions through them are checked with the implementation-side oracles only',
-    'numbers in generated programs are exactly representable; "-0" in log lines is compared as "0" (the rational host has no negative zero)',
+    'numbers in generated programs are exactly representable (additions of small integers only in fully-logged programs, so that an '
+    'endless loop cannot leave the exactly representable range); "-0" in log lines is compared as "0" (the rational host has no negative zero)',
     'included files live in one flat virtual directory, so the URL an include resolves to is the URL it names (resolution is C17)',
     'DEFAULT_MAX_STATEMENTS (1e9, used when the option is absent) is only checked to be positive; runs of that length are not executed',
 ]
@@ -84,7 +85,7 @@ class FL:
         if r < 0.3 or depth > 1:
             return rng.choice(names) if names and rng.random() < 0.6 else str(rng.randint(0, 5))
         if r < 0.55:
-            return f'{self.value(names, depth + 1)} {rng.choice(["+", "-", "*"])} {rng.randint(1, 3)}'
+            return f'{self.value(names, depth + 1)} {rng.choice(["+", "-"])} {rng.randint(1, 3)}'
         if r < 0.75 and self.funcs:
             name, nparams = rng.choice(self.funcs)
             self.kinds.add('call')
@@ -572,7 +573,7 @@ def stream_budget(ctx, n, driver=True, name='budget'):
 
 
 def streams(ctx):
-    stream_budget(ctx, ctx.scale(260, 5000))
+    stream_budget(ctx, ctx.scale(260, 4000))
 
 
 def disagreement_known(d, known):
@@ -580,7 +581,7 @@ def disagreement_known(d, known):
 
 
 def search(ctx):
-    stream_budget(ctx, ctx.scale(1500, 15000), driver=False, name='search-budget')
+    stream_budget(ctx, ctx.scale(1500, 8000), driver=False, name='search-budget')
 
 
 def replay(witness):
